@@ -7,7 +7,7 @@ output streams must be equal bit-for-bit.  The always-on snapshot contract (mon.
 byte-level image of every argument of every public call, and of the constructor's arguments, before and
 after the call; here its alarms are verdicts.  The arm list must be independent of the caller's list.
 
-As built: Extras: the objects a bandit was constructed from (arms list, policy tuples incl. their mutable fields) stay under the snapshot contract for the bandit's whole life; encodings also cover boolean rewards and nested lists mixing Python ints and floats (fractional values in later rows). Container classes 'narrow' (smallest integer dtype), 'f4' (contexts only, distance / hash policies only) and 'rev' (negative strides); TreeBandit parameter sets with max_features / random_state. A Simulator container scenario (inputs unchanged, lists vs arrays, with / without a scikit-learn scaler). Integral first batch / fractional later batch; Thompson cases carry binarizers (so that a conversion written into the caller's reward array is seen).
+As built: Extras: the objects a bandit was constructed from (arms list, policy tuples incl. their mutable fields) stay under the snapshot contract for the bandit's whole life; encodings also cover boolean rewards and nested lists mixing Python ints and floats (fractional values in later rows). Container classes 'narrow' (smallest integer dtype), 'f4' (contexts only, distance / hash policies only) and 'rev' (negative strides); TreeBandit parameter sets with max_features / random_state. A Simulator container scenario (inputs unchanged, lists vs arrays, with / without a scikit-learn scaler). Integral first batch / fractional later batch; Thompson cases carry binarizers (so that a conversion written into the caller's reward array is seen). Round 8: the second request of a scenario is written into the same query array object in place (reused request buffer).
 """
 from mon import env  # noqa: F401
 import copy
